@@ -140,3 +140,11 @@ Theorem C03_fan_complete : forall sigma (p : list (@vtx R)), fan sigma p -> ref_
 Proof. exact fan_complete. Qed.
 Theorem C03_chamfer_complete : forall size oversize : R, (0 < oversize)%R -> (oversize < size)%R -> complete (enumerate (chamfer size oversize)).
 Proof. exact chamfer_cap_complete. Qed.
+(* ... and they cover it: a point strictly on the inner side of every edge of the polygon lies in one of the fan triangles
+   (on the inner side of its polygon edge and of its second ray, on or inside its first ray) *)
+Theorem C03_fan_covers : forall sigma (p : list (@vtx R)) (q : pt2 R), (3 <= length p)%nat -> inner_side sigma p q ->
+  exists i, (S i < length p - 1)%nat /\
+    let a := pt_at p (length p - 1) in
+    (if sigma then (0 <= orientR a (pt_at p i) q)%R else (orientR a (pt_at p i) q <= 0)%R) /\
+    osign sigma (orientR (pt_at p i) (pt_at p (S i)) q) /\ osign sigma (orientR (pt_at p (S i)) a q).
+Proof. exact fan_covers. Qed.
